@@ -42,6 +42,20 @@ def rel(path):
     return r
 
 
+def _note_outside(path, what):
+    """a write-type operation of the code under test on a path that is neither below the scratch
+    root nor a device: remembered (not an event - the log stays independent of it) for checks
+    that bound where the library may write"""
+    if SIM.quiet or not SIM.watch_outside or path is None:
+        return
+    if path.startswith(("/dev/", "/proc/", "/sys/")) and not path.startswith("/dev/shm/"):
+        return
+    root = boot.SCRATCH["root"]
+    if root is not None and (path == root or path.startswith(root + "/")):
+        return
+    SIM.outside_writes.append((what, path))
+
+
 def _abspath(file):
     if isinstance(file, int):
         return None
@@ -68,7 +82,7 @@ class Gate(io.RawIOBase):
 
     def _match_plan(self):
         plan = SIM.write_plan
-        if not plan or plan.get("fired"):
+        if not plan or plan.get("fired") or "at" not in plan:
             return None
         if plan.get("actor") not in (None, SIM.actor):
             return None
@@ -128,7 +142,11 @@ class Gate(io.RawIOBase):
             os.write(self.fd, b[total:total + k])
             self.n += k
             total += k
-            SIM.event("write", self.rel, self.n)
+            try:
+                SIM.event("write", self.rel, self.n)
+            except OSError:     # simulated disk-full at this crash point: it stays full
+                self.full = True
+                raise
             if self.owner_dead():   # killed by another route while parked
                 return len(b)
         return len(b)
@@ -169,11 +187,13 @@ class RFile:
         off = self._f.tell()
         want = n if (n is not None and n >= 0) else -1
         SIM.event("read", self._p, off, want)
+        SIM.read_request("/" + self._p)
         return self._f.read(n)
 
     def readinto(self, b):
         off = self._f.tell()
         SIM.event("read", self._p, off, len(b))
+        SIM.read_request("/" + self._p)
         return self._f.readinto(b)
 
     def readall(self):
@@ -224,6 +244,8 @@ def sim_open(file, mode="r", buffering=-1, encoding=None, errors=None, newline=N
         return _real_open(file, mode, buffering, encoding, errors, newline, closefd, opener)
     p = _abspath(file)
     if p is None or not under_root(p) or opener is not None:
+        if p is not None and any(c in mode for c in "wax+"):
+            _note_outside(p, "open:" + mode)
         return _real_open(file, mode, buffering, encoding, errors, newline, closefd, opener)
     writing = any(c in mode for c in "wax+")
     if writing:
@@ -261,6 +283,8 @@ def sim_open(file, mode="r", buffering=-1, encoding=None, errors=None, newline=N
 def sim_os_open(path, flags, mode=0o777, *, dir_fd=None):
     p = _abspath(path) if dir_fd is None else None
     if p is None or not under_root(p):
+        if p is not None and flags & (os.O_WRONLY | os.O_RDWR | os.O_CREAT):
+            _note_outside(p, "os.open")
         if dir_fd is None:
             return _real_os_open(path, flags, mode)
         return _real_os_open(path, flags, mode, dir_fd=dir_fd)
@@ -281,6 +305,8 @@ def _mutator(name, npaths):
         paths = [_abspath(a) for a in args[:npaths]]
         if kw.get("dir_fd") is not None or kw.get("src_dir_fd") is not None \
                 or not any(p and under_root(p) for p in paths):
+            for p in paths:
+                _note_outside(p, name)
             return real(*args, **kw)
         if SIM.is_dead():
             return None
